@@ -18,3 +18,5 @@ open O2P.Gate
 #print axioms post_flat_or_sound_proj
 #print axioms or_inference_all_sound
 #print axioms missing_and_all_sound
+#print axioms post_process_sound
+#print axioms filter_defunct_sound
